@@ -437,7 +437,7 @@ func runSeq(r *vh.Rng, format string, idx int, sum *vh.Summary) {
 
 	// ---- decode: ONE Decoder, one call per position ----
 	var d *codec.Decoder
-	c.decT = r.PickString("bytes", "io", "io-bytereader")
+	c.decT = r.PickString("bytes", "io", "io-bytereader", "io-short")
 	switch c.decT {
 	case "bytes":
 		in := append(make([]byte, 0, len(out)+r.Intn(3)), out...) // cap >= len: a reader must not look past len
@@ -446,6 +446,12 @@ func runSeq(r *vh.Rng, format string, idx int, sum *vh.Summary) {
 		rb := r.PickInt(0, 0, 1, 7, 64, 4096)
 		c.cj["reader_buffer"] = rb
 		d = codec.NewDecoder(vh.OnlyReader{R: bytes.NewReader(out)}, vh.NewHandle(format, vh.CopyOpts(o, "ReaderBufferSize", rb)))
+	case "io-short":
+		// a reader that delivers 1..7 bytes per Read, unbuffered or buffered
+		rb := r.PickInt(0, 0, 0, 16, 64)
+		chunk := r.PickInt(1, 2, 3, 5, 7)
+		c.cj["reader_buffer"], c.cj["read_chunk"] = rb, chunk
+		d = codec.NewDecoder(&vh.ShortReader{R: bytes.NewReader(out), N: chunk}, vh.NewHandle(format, vh.CopyOpts(o, "ReaderBufferSize", rb)))
 	default:
 		d = codec.NewDecoder(bytes.NewReader(out), c.h)
 	}
